@@ -88,7 +88,7 @@ def check(ctx, src):
     ctx.rule("WRAP-TYPE", "each wrapper builds the model class that corresponds to its source type (model types map to themselves: idempotence precondition)")
     mod = src.py(REL)
     am = mod.func("as_model")
-    ctx.require(am is not None, "as_model not found in hy/models.py")
+    ctx.need(am is not None, "as_model not found in hy/models.py")
     ctx.functions.add(f"{REL}:as_model")
     body = pyq.body_without_doc(am)
 
@@ -104,7 +104,7 @@ def check(ctx, src):
                 guard_i = i
         if disp_i is None and pyq.contains(st, lambda n: isinstance(n, ast.Name) and n.id == "_wrappers"):
             disp_i = i
-    ctx.require(disp_i is not None, "as_model no longer dispatches through _wrappers (anchor vanished)")
+    ctx.need(disp_i is not None, "as_model no longer dispatches through _wrappers (anchor vanished)")
     ctx.check(guard_i is not None and guard_i < disp_i, "WRAP-GUARD", f"{REL}|as_model|guard-before-dispatch",
               "as_model does not test `id(x) in _seen` (raising HyWrapperError) before dispatching to the wrapper", REL, am.lineno,
               witness="(setv l []) (.append l l) (hy.as-model l) recurses until RecursionError instead of HyWrapperError",
